@@ -33,6 +33,8 @@ const (
 	vpMaxSize = uint64(1) << 40 // byte sizes
 )
 
+func vpMin(a, b uint64) uint64 { return vpIte(a < b, a, b) }
+
 // vpConds accumulates the clauses of an assumption / invariant.
 type vpConds struct {
 	c    []bool
@@ -128,6 +130,7 @@ type vpOpts struct {
 	plainData bool  // log entries: type fixed to EntryNormal
 	inflPeers int   // number of peers (2, 3) whose in-flight window is non-trivial; 0 = all
 	symPeers  int   // number of peers with fully symbolic Progress; 0 = all. The others are caught-up replicas.
+	noSizeLimit bool // maxMsgSize and maxApplyingEntsSize are "no limit" (size-limit behaviour is decided in dedicated cells)
 }
 
 // vpNode is a constructed node plus the facts the harness remembers about it.
@@ -233,7 +236,11 @@ func vpBuildLog(o vpOpts, k *vpConds) (*raftLog, *MemoryStorage) {
 	k.add(p <= uint64(m))
 	l.unstable.offsetInProgress = off + p
 	l.committed, l.applying, l.applied = vpU64(), vpU64(), vpU64()
-	l.maxApplyingEntsSize = entryEncodingSize(vpU64())
+	if o.noSizeLimit {
+		l.maxApplyingEntsSize = noLimit
+	} else {
+		l.maxApplyingEntsSize = entryEncodingSize(vpU64())
+	}
 	l.applyingEntsSize = entryEncodingSize(vpU64())
 	l.applyingEntsPaused = vpBool()
 	return l, ms
@@ -259,6 +266,10 @@ func vpBuildTracker(o vpOpts, sh vpShape, l *raftLog, k *vpConds) tracker.Progre
 		pr := &tracker.Progress{Next: last + 1, Inflights: tracker.NewInflights(size, maxBytes), IsLearner: vpContains(sh.learners, id)}
 		if id == 1 {
 			pr.Match = last
+			if o.role == StateLeader {
+				pr.State = tracker.StateReplicate
+				pr.RecentActive = true
+			}
 		}
 		if o.leaderPr {
 			if id == 1 {
@@ -324,6 +335,14 @@ func vpBuildTracker(o vpOpts, sh vpShape, l *raftLog, k *vpConds) tracker.Progre
 // vpBuild constructs a raft node in the requested role. The accumulated
 // conditions (representation invariant) are assumed before returning.
 func vpBuild(o vpOpts) *vpNode {
+	nd := vpBuildNoAssume(o)
+	nd.conds.assume()
+	return nd
+}
+
+// vpBuildNoAssume leaves the accumulated conditions in nd.conds for the caller
+// to extend and assume.
+func vpBuildNoAssume(o vpOpts) *vpNode {
 	k := &vpConds{}
 	raftLogger = vpLog
 	l, ms := vpBuildLog(o, k)
@@ -331,7 +350,11 @@ func vpBuild(o vpOpts) *vpNode {
 	r := &raft{id: 1, raftLog: l, logger: vpLog}
 	r.trk = vpBuildTracker(o, shape, l, k)
 	r.Term, r.Vote, r.lead = vpU64(), vpU64(), vpU64()
-	r.maxMsgSize = entryEncodingSize(vpU64())
+	if o.noSizeLimit {
+		r.maxMsgSize = noLimit
+	} else {
+		r.maxMsgSize = entryEncodingSize(vpU64())
+	}
 	r.maxUncommittedSize = entryPayloadSize(vpU64())
 	r.isLearner = vpContains(shape.learners, 1)
 	r.checkQuorum, r.preVote = vpBool(), vpBool()
@@ -394,7 +417,6 @@ func vpBuild(o vpOpts) *vpNode {
 	}
 	nd := &vpNode{r: r, ms: ms, shape: shape, conds: k}
 	vpInvInto(k, r)
-	k.assume()
 	return nd
 }
 
